@@ -120,12 +120,16 @@ def nontrivial(stream, schedule, cap):
     return False
 
 
-def check(op, stream_replies, greeting, emulated, col, data=None):
+def check(op, stream_replies, greeting, emulated, col, data=None, expected=None):
     stream = b"".join(stream_replies) if op != "connect" else greeting + b"".join(stream_replies)
     base = observe(op, stream_replies, greeting, [], None, emulated)
     # exact consumption in the reference run
     fails = []
     label = "emulated-rename" if emulated else op
+    if expected is not None and not R.matches(expected, base["result"]):
+        # recv() returning exactly as many bytes as asked for is a segmentation, too
+        fails.append(("unsegmented-delivery-misread|%s|len=%d" % (label, len(stream)),
+                      {"op": label, "stream_length": len(stream), "expected": expected, "got": base["result"], "schedule": [], "cap": None}))
     if base["result"][0] != "exc" and base["unread_after_op"]:
         fails.append(("reply-not-consumed-exactly|%s|single-chunk" % label, {"op": label, "stream": stream, "unread": base["unread_after_op"]}))
     scheds = schedules_for(stream)
@@ -189,15 +193,62 @@ def worker(arg):
             check("renamescript", stream, R.GREETING_NOVERSION, True, col, data)
         else:
             rep = data.draw(R.reply(op, (b"OK", b"NO")))
-            check(op, [rep["bytes"]], R.GREETING, False, col, data)
+            exp = R.expected(rep)
+            if op == "capability":
+                exp = None
+            check(op, [rep["bytes"]], R.GREETING, False, col, data, expected=exp)
 
     body()
+    if sd % 16 == 0:
+        boundary_family(col)
     return col
+
+
+def boundary_family(col):
+    """Replies whose length is exactly (a multiple of) the client's read size,
+    one byte less and one byte more: recv() then returns exactly what was
+    asked for with nothing behind it."""
+    from sievelib import managesieve as ms
+    rs = getattr(ms.Client, "read_size", 4096)
+    tail = wire.status_line(b"OK", None, b"Getscript completed.")
+    for total in (rs - 1, rs, rs + 1, 2 * rs - 1, 2 * rs, 2 * rs + 1):
+        # {n}CRLF body CRLF OK-line  ==  total bytes
+        n = total - len(tail) - 2
+        hdr = b"{%d}\r\n" % (n - len(b"{%d}\r\n" % n))
+        body = b"#" + b"x" * (total - len(tail) - 2 - len(hdr) - 3) + b"\r\n"
+        reply = b"{%d}\r\n" % len(body) + body + b"\r\n" + tail
+        # adjust for the header length estimate
+        while len(reply) > total and len(body) > 3:
+            body = b"#" + body[2:]
+            reply = b"{%d}\r\n" % len(body) + body + b"\r\n" + tail
+        while len(reply) < total:
+            body = b"#x" + body[1:]
+            reply = b"{%d}\r\n" % len(body) + body + b"\r\n" + tail
+        exp = ("ret", ("lines", [body[:-2].decode()]))
+        base = observe("getscript", [reply], R.GREETING, [], None)
+        col.case(key=b"boundary-getscript-%d" % total, nontrivial=True, classes=["op:getscript", "sched:read-size-boundary"],
+                 sample={"op": "getscript", "reply_length": len(reply), "read_size": rs} if total == rs else None)
+        if not R.matches(exp, base["result"]) or base["sentinels"] is None or base["sentinels"][0][0] != "ret":
+            col.fail("unsegmented-delivery-misread|getscript|len=%d(read_size=%d)" % (len(reply), rs),
+                     {"op": "getscript", "replies": [reply], "greeting": R.GREETING, "emulated": False, "schedule": [], "cap": None, "boundary": True},
+                     {"reply_length": len(reply), "result": base["result"], "sentinels": base["sentinels"]}, size=len(reply))
+        # and the same stream cut exactly at the read size
+        for sch in ([rs], [rs - 1], [rs + 1]):
+            if sch[0] >= len(reply):
+                continue
+            obs = observe("getscript", [reply], R.GREETING, sch, None)
+            col.case(key=b"boundary-getscript-%d-%d" % (total, sch[0]), nontrivial=True, classes=["sched:read-size-boundary"])
+            if obs != base:
+                col.fail("segmentation-dependent|getscript|read-size-boundary", {"op": "getscript", "replies": [reply], "greeting": R.GREETING,
+                         "emulated": False, "schedule": sch, "cap": None}, {"single_chunk": base["result"], "segmented": obs["result"]}, size=len(reply))
 
 
 def replay(case):
     col = core.Collector()
     op = case["op"]
+    if case.get("boundary"):
+        boundary_family(col)
+        return [(b, f["detail"]) for b, f in col.fails.items()]
     base = observe(op, case["replies"], case["greeting"], [], None, case["emulated"])
     obs = observe(op, case["replies"], case["greeting"], case["schedule"], case["cap"], case["emulated"])
     out = []
@@ -223,7 +274,7 @@ def replay(case):
 def main(tier, seed, t0):
     quick = tier == "quick"
     col = core.run_shards(worker, [(seed * 1000 + 1500 + k, 60 if quick else 800) for k in range(16)])
-    need = ["op:" + o for o in R.OPS] + ["op:connect", "op:emulated-rename", "sched:cut1", "sched:cut2", "sched:cap", "sched:kway"]
+    need = ["op:" + o for o in R.OPS] + ["op:connect", "op:emulated-rename", "sched:cut1", "sched:cut2", "sched:cap", "sched:kway", "sched:read-size-boundary"]
     missing = [c for c in need if not col.classes.get(c)]
     if missing:
         raise core.HarnessError("generator classes empty: %s" % missing)
